@@ -5,6 +5,8 @@
 
 mod buf;
 mod cfg;
+mod crash;
+mod props_c18;
 mod e1;
 mod e2;
 mod gen_cfg;
@@ -121,6 +123,8 @@ fn dispatch(prop: &str, ctx: &Ctx) -> Finish {
         props_eval::run_c19(ctx)
     } else if prop == "C20" {
         props_eval::run_c20(ctx, replay_bin(), tmp_dir())
+    } else if prop == "C18" {
+        props_c18::run_c18(ctx)
     } else if prop == "C06" {
         props_unit2::run_c06(ctx)
     } else if prop == "C08" {
@@ -144,6 +148,10 @@ fn dispatch(prop: &str, ctx: &Ctx) -> Finish {
 
 /// Re-execute a saved case without any generator in the loop.
 fn replay_doc(prop: &str, doc: &Value) -> Option<String> {
+    if prop == "C18" {
+        // the fault handler reports (and exits) if the case faults again
+        return props_c18::replay(doc, &tmp_dir());
+    }
     match doc["engine"].as_str().unwrap() {
         "seq" => {
             let case: e1::SeqCase = serde_json::from_value(doc["case"].clone()).unwrap();
@@ -254,6 +262,48 @@ fn main() {
                     2
                 }
             }
+        }
+        Some("export-miri") => {
+            // vfh export-miri <count> <seed> <file>: resolved call scripts of small generated cases
+            use proptest::strategy::{Strategy, ValueTree};
+            use proptest::test_runner::{Config as PtConfig, RngSeed, TestRunner};
+            let count: usize = args.get(2).and_then(|s| s.parse().ok()).unwrap_or(40);
+            let seed: u64 = args.get(3).and_then(|s| s.parse().ok()).unwrap_or(0);
+            let file = args.get(4).expect("output file");
+            let w = ops::Weights {
+                change: 4,
+                drain: 6,
+                exhaust: 0,
+                free_subset: 1,
+                beyond: true,
+                offline_full_only: false,
+                ..ops::Weights::base(3)
+            };
+            let strat = (
+                gen_cfg::config_strategy(1, true, true, false),
+                proptest::collection::vec(ops::op_strategy(&w), 0..12),
+            )
+                .prop_map(|(cfg, ops)| e1::SeqCase { cfg, ops });
+            let mut runner = TestRunner::new(PtConfig {
+                rng_seed: RngSeed::Fixed(seed),
+                failure_persistence: None,
+                ..PtConfig::default()
+            });
+            let mut out = String::new();
+            let mut n = 0;
+            let mut tries = 0;
+            while n < count && tries < count * 20 {
+                tries += 1;
+                let case = strat.new_tree(&mut runner).unwrap().current();
+                if let Some(lines) = e1::script_of(&case) {
+                    out += &lines.join("\n");
+                    out += "\n\n";
+                    n += 1;
+                }
+            }
+            std::fs::write(file, out).unwrap();
+            println!("exported {n} call scripts to {file}");
+            0
         }
         Some("replay") => {
             let path = args.get(2).expect("replay file");
